@@ -364,10 +364,9 @@ pub fn run(run: &mut Run) {
     let n = cases.len() as u64;
     run.enumerate(&DecodeSide, n, true, |i| Some(cases[i as usize].clone()));
     // 32-bit fields: boundary-biased
-    let wire32 = (0..DURATION_FIELDS.len(), any::<bool>(), 0usize..8, any::<u32>(), 0u32..4).prop_filter_map("32-bit fields", |(field, compressed, class, r, d)| {
-        if DURATION_FIELDS[field].2 != 4 {
-            return None;
-        }
+    let four: Vec<usize> = (0..DURATION_FIELDS.len()).filter(|i| DURATION_FIELDS[*i].2 == 4).collect();
+    let wire32 = (0..four.len(), any::<bool>(), 0usize..8, any::<u32>(), 0u32..4).prop_filter_map("32-bit fields", move |(field, compressed, class, r, d)| {
+        let field = four[field];
         let wire = match class {
             0 => d as u64,
             1 => 0xffff_ffff - d as u64,
